@@ -7,7 +7,7 @@ from pyvc.verify import verify
 from bounded.common import Suite, FmtStr, Chunk, fmtstr, cells
 from cwcwidth import wcwidth, wcswidth
 
-LEVEL = "exploration"
+LEVEL = "proof"
 CONTRACTS = [F.interval_overlap, F.chunk_width_body, F.width_at_offset, MEMO.width_memo, COL.cutter, COL.run_walk]
 ASSUMPTIONS = [
     "cwcwidth.wcwidth(c) in {-1,0,1,2}; wcswidth(s, n) == sum of wcwidth over s[:n], or -1 (assumed contract of the dependency, "
@@ -18,8 +18,9 @@ ASSUMPTIONS = [
     "of the method are covered by the bounded suite only",
     "fold lemma schemas used as ground instances by the run walk - BCUT(s,a,b) is empty when b <= 0 or a >= width(s); equals the "
     "column-occupying characters of s when a <= 0 and b >= width(s); BCUT(s,a,b) == BCUT(s,max(0,a),b); RUNCUT splits at a run boundary - "
-    "need induction and are NOT proved by the solvers: validated on every run by exhaustive evaluation of the executable column model "
-    "(lemma_selftest: strings <= 5 over narrow/wide/combining, every a, b in [-3, width+3]); wcswidth additive over concatenation",
+    "need induction: proved in Lean 4 (lean/Columns.lean, type-checked by bin/setup) and re-validated on every run by exhaustive "
+    "evaluation of the executable column model (lemma_selftest: strings <= 5 over narrow/wide/combining, every a, b in [-3, width+3]); "
+    "wcswidth additive over concatenation (dependency contract)",
     "placement of zero-width characters next to a cut is compared up to attachment (statement is silent)",
 ]
 
